@@ -161,6 +161,8 @@ CHECK_DEADLOCK FALSE
 			actual = c.Expected.LogN
 		} else if v := leadingInt(wf); v >= 1 && v <= 12 {
 			actual = v // if the gate were too lax the derivation would even succeed
+		} else if v := wrapped(wf); v >= 1 && v <= 12 {
+			actual = v // a parser that wraps around on overflow would read this small number
 		}
 		fk := make([]byte, 16)
 		rand.Read(fk)
@@ -192,6 +194,17 @@ CHECK_DEADLOCK FALSE
 			continue
 		}
 		file := buildFile(t, fk, ss, pt)
+		if len(c.Layout) > 1 {
+			// with a WRONG passphrase too the header must be rejected outright (not treated as "not mine"): another identity
+			// listed after the passphrase identity must not get to open a header that mixes a passphrase stanza with others
+			wrongID, _ := age.NewScryptIdentity("not " + pw)
+			wrongID.SetMaxWorkFactor(c.Max)
+			r, err := age.Decrypt(bytes.NewReader(file), wrongID, x1)
+			run.Eval(1)
+			if err == nil && r != nil {
+				run.Violation(fmt.Sprintf("C10:mixed-header-accepted:layout=%s", strings.Join(c.Layout, ",")), fmt.Sprintf("a passphrase identity (wrong passphrase) followed by an X25519 identity: the header %v, in which the passphrase stanza is not alone, was opened", c.Layout), map[string]interface{}{"check": "C10.mixed", "layout": c.Layout})
+			}
+		}
 		for _, via := range []string{"Unwrap", "Decrypt"} {
 			id, _ := age.NewScryptIdentity(pw)
 			id.SetMaxWorkFactor(c.Max)
@@ -224,6 +237,24 @@ CHECK_DEADLOCK FALSE
 	run.Sample(map[string]interface{}{"tlc_case": lines[len(lines)/2]})
 	encryptSide(run, w, tier)
 	run.Finish()
+}
+
+// wrapped: the value of a decimal string modulo 2^64 and 2^32 if either is small (else 0).
+func wrapped(s string) int {
+	var v64 uint64
+	for _, c := range s {
+		if c < '0' || c > '9' {
+			return 0
+		}
+		v64 = v64*10 + uint64(c-'0')
+	}
+	if v64 >= 1 && v64 <= 12 {
+		return int(v64)
+	}
+	if v32 := uint32(v64); v32 >= 1 && v32 <= 12 {
+		return int(v32)
+	}
+	return 0
 }
 
 func leadingInt(s string) int {
